@@ -145,7 +145,7 @@ func c11Child(c *mon.Child) {
 		c.Feature("grammars_built")
 		r := c.RNG("inputs", h.ID)
 		smp := gram.NewSampler(g, r)
-		inputs := smp.Inputs(nInputs)
+		inputs := append(featInputs(g), smp.Inputs(nInputs)...)
 		gdesc := trunc(g.String(), 900)
 		for ii, toks := range inputs {
 			key := fmt.Sprintf("%s.i%d", h.ID, ii)
@@ -229,7 +229,7 @@ func init() {
 		Batches:     func(t string) int { return pick(t, 4, 16) },
 		Floor:       func(t string) int { return pick(t, 1000, 20000) },
 		TimeoutSec:  func(t string) int { return pick(t, 900, 3600) },
-		Prepare:     gramPrepare("C11", func(t string) int { return pick(t, 90, 220) }, c11Opts, nil, false),
+		Prepare:     gramPrepare("C11", func(t string) int { return pick(t, 90, 220) }, c11Opts, witnessExtra, false),
 		Child:       c11Child,
 	})
 }
